@@ -426,22 +426,25 @@ RECURSIVE SumSeq(_)
 SumSeq(q) == IF q = <<>> THEN 0 ELSE Head(q) + SumSeq(Tail(q))
 \* the files in some fixed order
 FileSeq == CHOOSE q \in [1..Cardinality(File) -> File] : \A a, b \in 1..Cardinality(File) : a # b => q[a] # q[b]
-AddedCount(c)    == SumSeq([i \in 1..Cardinality(File) |->
-                       Cardinality(Added(TreeOf(par[c])[FileSeq[i]], tree[c][FileSeq[i]]))])
-DeletedCount(c)  == SumSeq([i \in 1..Cardinality(File) |->
-                       Cardinality(Added(tree[c][FileSeq[i]], TreeOf(par[c])[FileSeq[i]]))])
-AcceptedCount(c) == SumSeq([i \in 1..Cardinality(File) |->
-                       Cardinality({ k \in Added(TreeOf(par[c])[FileSeq[i]], tree[c][FileSeq[i]]) :
-                                       NoteAt(c, FileSeq[i], k) # H })])
-C19_Stats ==
-  \A c \in 1..MaxCommit : (Made(c) /\ stats[c].has) =>
-    LET st == stats[c] IN
+Cnt(c, X, which) ==    \* over the files not in X: lines added / deleted by c, and added lines its note gives a session
+  SumSeq([i \in 1..Cardinality(File) |->
+     LET f == FileSeq[i] IN
+     IF f \in X THEN 0
+     ELSE CASE which = "added"   -> Cardinality(Added(TreeOf(par[c])[f], tree[c][f]))
+            [] which = "deleted" -> Cardinality(Added(tree[c][f], TreeOf(par[c])[f]))
+            [] OTHER -> Cardinality({ k \in Added(TreeOf(par[c])[f], tree[c][f]) : NoteAt(c, f, k) # H })])
+StatsOK(c, st, X) ==
     /\ st.added = st.numstat_added /\ st.deleted = st.numstat_deleted        \* totals = git's numstat
-    /\ st.added = AddedCount(c) /\ st.deleted = DeletedCount(c)              \* ... = the diff of the trees
-    /\ st.ai_accepted = AcceptedCount(c)                                     \* accepted = note /\ added lines
+    /\ st.added = Cnt(c, X, "added") /\ st.deleted = Cnt(c, X, "deleted")    \* ... = the diff of the trees
+    /\ st.ai_accepted = Cnt(c, X, "accepted")                                \* accepted = note /\ added lines
     /\ st.human + st.ai_accepted = st.added
     /\ st.ai = st.ai_accepted + st.mixed /\ st.ai <= st.added
     /\ st.tools_ai_accepted = st.ai_accepted /\ st.tools_ai = st.ai /\ st.tools_mixed = st.mixed
+\* plain, and with one file ignored on the command line (`stats <commit> --ignore <path>`)
+C19_Stats ==
+  \A c \in 1..MaxCommit : (Made(c) /\ stats[c].has) =>
+    /\ StatsOK(c, stats[c], {})
+    /\ stats[c].ign.has => StatsOK(c, stats[c].ign, {stats[c].ign.file})
 
 \* C08: conversation text reaches the shared notes only when the user opted in, and then with credentials masked
 C08_NoTranscript == storage # "notes" => ~leak.text
